@@ -19,6 +19,9 @@ pub struct Profile {
     pub family: u8,
     pub hash_modes: [u32; 4], // Good, Identity, Low, Collide
     pub w: W,
+    /// percentage of cases made almost entirely of operations on the zero-sized-element collections
+    /// (sprinkled among other operations, the few-step states they need are rarely reached)
+    pub z_heavy_pct: u32,
 }
 
 #[derive(Clone, Debug, Default)]
@@ -119,6 +122,13 @@ pub fn profile(prop: Prop, thorough: bool) -> Profile {
         family: 2,
         hash_modes: [5, 2, 2, 1],
         w: base_w(),
+        z_heavy_pct: match prop {
+            C01 | C04 | C11 | C13 => 5,
+            C05 | C09 => 10,
+            C06 | C08 | C10 | C12 | C17 => 8,
+            C07 => 15,
+            _ => 0,
+        },
     };
     match prop {
         C01 => {
@@ -710,6 +720,14 @@ fn prelude(p: &Profile) -> BoxedStrategy<Vec<Op>> {
 }
 
 pub fn case_strategy(p: &Profile) -> BoxedStrategy<Case> {
+    if p.z_heavy_pct > 0 && p.z_heavy_pct < 100 {
+        let mut plain = p.clone();
+        plain.z_heavy_pct = 0;
+        let mut zh = plain.clone();
+        zh.w = W { z: 40, insert: 2, lookup: 1, trigger: 1, set_point: 1, ..W::default() };
+        zh.max_ops = p.max_ops.min(24);
+        return Union::new_weighted(vec![(100 - p.z_heavy_pct, case_strategy(&plain)), (p.z_heavy_pct, case_strategy(&zh))]).boxed();
+    }
     let fam = match p.family {
         0 => Just(Family::P).boxed(),
         1 => Just(Family::T).boxed(),
@@ -752,10 +770,18 @@ pub fn c14_case_strategy(thorough: bool) -> BoxedStrategy<Case> {
         (any::<bool>(), any::<bool>(), any::<bool>(), any::<bool>(), 0u8..4, 0u8..4),
         // negative variant: change one value / remove one key / add one key at the end
         0u8..5,
-        any::<u16>(),
+        (any::<u16>(), 0u8..12, 20u32..400),
     )
-        .prop_map(|(family, (m0, s0, m1, s1), (c0, c1), content, perm_seed, (extras, reserve, shrink, split_b, split_a, junk), neg, negsel)| {
+        .prop_map(|(family, (m0, s0, m1, s1), (c0, c1), mut content, perm_seed, (extras, reserve, shrink, split_b, split_a, junk), neg, (negsel, removal, bulk))| {
             let mut ops = Vec::new();
+            // removal histories (removal 1..=5): B first holds `bulk` keys above the universe and is
+            // mid-resize, gets the (few) contents, and then loses the bulk again through retain,
+            // drain_filter or remove - with retain an emptied old table lingers. removal 5: nothing
+            // is left at all (an emptied map against a new one)
+            let removal = if removal > 5 { 0 } else { removal };
+            if removal > 0 {
+                content.truncate(if removal == 5 { 0 } else { (bulk / 12) as usize });
+            }
             // history A: plain insertion order
             for (k, v) in &content {
                 ops.push(Op::Insert { s: 0, k: KeySel::Any(*k), v: *v });
@@ -770,6 +796,10 @@ pub fn c14_case_strategy(thorough: bool) -> BoxedStrategy<Case> {
             }
             if reserve {
                 ops.push(Op::Reserve { s: 1, n: CapArg::Medium((content.len() / 2) as u16), follow: false });
+            }
+            if removal > 0 {
+                ops.push(Op::InsertMany { s: 1, n: bulk, v: 7 });
+                ops.push(Op::TriggerGrowth { s: 1 });
             }
             for (j, i) in order.iter().enumerate() {
                 let (k, v) = content[*i];
@@ -787,7 +817,23 @@ pub fn c14_case_strategy(thorough: bool) -> BoxedStrategy<Case> {
                     ops.push(Op::Remove { s: 1, k: KeySel::Any(5000 + j as u32) });
                 }
             }
-            if shrink {
+            match removal {
+                1 | 5 => ops.push(Op::Retain { s: 1, pred: Pred::KeyBelow(8192), mutate: None }),
+                2 => {
+                    ops.push(Op::Retain { s: 1, pred: Pred::OnlyMain, mutate: None });
+                    ops.push(Op::Retain { s: 1, pred: Pred::KeyBelow(8192), mutate: None });
+                }
+                3 => ops.push(Op::DrainFilter { s: 1, pred: Pred::All, mutate: None, take: None, forget: false }),
+                4 => ops.push(Op::RemoveFresh { s: 1 }),
+                _ => {}
+            }
+            if removal == 3 || removal == 2 {
+                // the contents went too: put them back (B's table now has tombstones / a lingering old table)
+                for (k, v) in &content {
+                    ops.push(Op::Insert { s: 1, k: KeySel::Any(*k), v: *v });
+                }
+            }
+            if shrink && removal == 0 {
                 ops.push(Op::ShrinkToFit { s: 1 });
             }
             for _ in 0..junk {
